@@ -65,8 +65,9 @@ def gen(rng: random.Random, tier: str, idx: int) -> dict:
         plan["faults"].append({"kind": "crash", "proc": f"p{rng.randrange(n)}", "pstep": rng.randint(20, 130)})
     else:
         for i in range(n):
-            cyc = [{"timeout": rng.choice([2.0, 10.0, 30.0, 100.0]), "hold": rng.choice([0.0, 1.0, 25.0, 70.0, 130.0]),
-                    "pre": rng.choice([0.0, 0.0, 0.5, 20.0, 65.0])} for _ in range(rng.randint(1, 2))]
+            cyc = [{"timeout": rng.choice([2.0, 10.0, 30.0, 100.0]), "hold": rng.choice([0.0, 1.0, 25.0, 70.0, 130.0, 200.0]),
+                    "pre": rng.choice([0.0, 0.0, 0.5, 20.0, 65.0]), "poll": rng.choice([10.0, 10.0, 45.0, 1000.0])}
+                   for _ in range(rng.randint(1, 2))]
             acts.append({"name": f"c{i}", "proc": f"p{i}", "cycles": cyc})
         for _ in range(rng.randint(0, 3)):
             plan["faults"].append({"kind": rng.choice(["pause", "pause", "stall"]), "actor": f"c{rng.randrange(n)}",
@@ -137,7 +138,7 @@ def _cycle_body(sim, lock_factory, cycles, ev: List[dict], name: str):
                     e["held_checks"].append((sim.gstep, sim.now, bool(hv)))
                     if left <= 0:
                         break
-                    dt = min(left, 10.0)
+                    dt = min(left, c.get("poll", 10.0))
                     # marker op so a crash fault can target "while holding"
                     sim.seam("sleep_hold", "LOCK", name, lambda: None, noyield=True)
                     sim.sleep(dt)
